@@ -9,7 +9,7 @@ from jsonpath_rfc9535.exceptions import JSONPathError
 
 from vtools import evalh, hcommon, holes
 from vtools.corpus import SEEDS
-from vtools.inst import P
+from vtools.inst import P, fresh
 from vtools.ref.evalref import ref_eval
 
 INFO = {
@@ -127,6 +127,37 @@ def h_texts() -> Union[bool, str]:
     return True
 
 
+REUSE_TEXTS = ["$.items[?@.v <= $.limit]", "$.items[?@.v == $.items[0].v]", "$..v", "$.items[?$.flag].v", "$.items[?@.t[?@ == $.limit]]"]
+
+
+def h_reuse() -> Union[bool, str]:
+    """One compiled query object, applied before and after the document is updated in place (and to a second document),
+    must agree at every point with the entry points that take the query text (module level / environment)."""
+    text = REUSE_TEXTS[P["query"]]
+    env = JSONPathEnvironment()
+    c = env.compile(text)
+    doc = {"limit": fresh(int, "l0"), "flag": 1, "items": [{"v": 3, "t": [1, 5]}, {"v": fresh(int, "v1"), "t": [5]}]}
+    other = {"limit": 4, "items": [{"v": fresh(int, "o0"), "t": []}]}
+    for step in range(3):
+        cur = other if step == 1 else doc
+        a = _key(c.find(cur))
+        b = _key(c.apply(cur))
+        it = _key(list(c.finditer(cur)))
+        one = c.find_one(cur)
+        m = _key(jp.find(text, cur))
+        e = _key(env.find(text, cur))
+        if not (a == b == it == m == e):
+            return "step %d, %s on %r: compiled %r / apply %r / finditer %r, jp.find %r, env.find %r" % (step, text, cur, a, b, it, m, e)
+        if (one is None) != (len(a) == 0) or (one is not None and _key([one]) != a[:1]):
+            return "step %d, %s: find_one disagrees with find" % (step, text)
+        if step == 0:
+            doc["limit"] = fresh(int, "l1")
+            doc["items"][0]["v"] = fresh(int, "v0b")
+            if hcommon.sym_choice("dropflag", 2) == 1:
+                del doc["flag"]
+    return True
+
+
 def h_reach() -> bool:
     """Reachability twin: must be refuted (find_one returns a node for some input)."""
     q, _r = evalh.build_query([("child", ["index"])], ENV)
@@ -140,7 +171,7 @@ SELFTESTS = []
 
 def obligations(tier: str):
     obls = []
-    t = 300 if tier == "quick" else 3000
+    t = 300 if tier == "quick" else 1200
     for ti, tpl in enumerate(TEMPLATES):
         if tier == "quick" and len(tpl) > 1 and any("slice" in specs for _k, specs in tpl):
             continue
@@ -150,6 +181,8 @@ def obligations(tier: str):
                     continue
                 for root in (4, 5, 6):
                     obls.append({"id": "obj.t%02d.d%d.%s" % (ti, depth, hcommon.KIND_NAMES[root]), "func": "h_objects", "params": {"template": ti, "depth": depth, "rootkind": root}, "timeout": t})
+    for qi in range(len(REUSE_TEXTS)):
+        obls.append({"id": "reuse.q%d" % qi, "func": "h_reuse", "params": {"query": qi}, "timeout": t})
     obls.append({"id": "reach", "func": "h_reach", "timeout": 60, "expect": "refuted"})
     seeds = TEXT_SEEDS if tier == "quick" else SEEDS
     for j, (pre, suf) in enumerate(holes.hole_instances(seeds)):
